@@ -19,7 +19,7 @@ def atom(t, rel, thr):
 
 def options_grid():
     for H in (3600, 5400):
-        for Rs in (360, 900, H):
+        for Rs in (360, 900, 1000, 2400, H):
             for Rep in (0, H):
                 for Start in (0, 3600, 23400, 82800):
                     for Dur in (86400, 194400):
@@ -290,7 +290,8 @@ def main(tier, replay):
     for s, o in zip(det, obs):
         e = exp[s["id"]]
         for clause, detail in compare(s, e, o):
-            tag = " [eq-atom window differs]" if eq_preempted(s, o.get("times", [])) else ""
+            # solve times: the reported ones plus the model's (partial steps are invisible on a report grid)
+            tag = " [eq-atom window differs]" if eq_preempted(s, sorted(set(o.get("times", [])) | set(e["mt"]))) else ""
             ck.violation(clause, shape(s) + tag + " :: " + detail, {"scn": s, "expected": e, "observed": o})
         ck.nontrivial(shape(s))
         for k in kinds(s):
